@@ -133,7 +133,9 @@ Proof.
     destruct (Z.ltb_spec (be_val (skipn 32 rest)) secp_p) as [Hy|]; [|discriminate].
     pose proof (be_val_bound _ Hb1) as [Hv1 _]. pose proof (be_val_bound _ Hb2) as [Hv2 _].
     destruct (((tag =? 6)%N || (tag =? 7)%N) && negb (Bool.eqb (Z.odd (be_val (skipn 32 rest))) (tag =? 7)%N)) eqn:Ehy; [discriminate|].
-    destruct (on_curve _ _) eqn:Hc; [|discriminate]. injection H as Ex Ey. subst x y.
+    destruct (on_curve _ _) eqn:Hc; [|discriminate].
+    assert (Ex : x = be_val (firstn 32 rest)) by congruence.
+    assert (Ey : y = be_val (skipn 32 rest)) by congruence. clear H. subst x y.
     split; [lia|]. split; [lia|]. split; [exact Hc|]. split; [|right; repeat split; assumption].
     apply Bool.orb_true_iff in Etag. destruct Etag as [Etag|E7].
     + apply Bool.orb_true_iff in Etag. destruct Etag as [E4|E6].
@@ -141,3 +143,106 @@ Proof.
       * apply N.eqb_eq in E6. subst tag. simpl in Ehy |- *. destruct (Z.odd _); [discriminate|reflexivity].
     + apply N.eqb_eq in E7. subst tag. simpl in Ehy |- *. destruct (Z.odd _); [reflexivity|discriminate].
 Qed.
+
+  (* x-only keys: secp256k1_xonly_pubkey_from_pubkey keeps x, makes y even and reports the old parity;
+   secp256k1_xonly_pubkey_parse of the serialised x gives back exactly that even-y point *)
+Theorem xonly_from_pubkey_spec : forall x y, 0 <= y < secp_p ->
+  let '((x', y'), parity) := xonly_from_pubkey (x, y) in
+  x' = x /\ parity = Z.odd y /\ Z.odd y' = false /\ 0 <= y' < secp_p /\ (y' = y \/ y' + y = secp_p) /\
+  on_curve x y' = on_curve x y.
+Proof.
+  intros x y Hy. unfold xonly_from_pubkey.
+  assert (Hodd : Z.odd secp_p = true) by (vm_compute; reflexivity).
+  destruct (Z.odd y) eqn:Ey.
+  - destruct (fneg_spec y Hy) as [En Hn]. unfold fneg in *. destruct (Z.eqb_spec y 0) as [->|Hnz]; [discriminate|].
+    repeat split; try lia.
+    + rewrite Z.odd_sub, Hodd, Ey. reflexivity.
+    + unfold on_curve. f_equal. rewrite !fsqr_spec. rewrite En, <- Z.mul_mod by lia. f_equal. ring.
+  - repeat split; auto; lia.
+Qed.
+
+
+(* ---------------------------------------------------------------------------------------------- *)
+(* compressed round trip, x-only keys.  Number-theoretic premises: p is prime, and the library's square
+   root (a^((p+1)/4) by its addition chain) succeeds on every square (Euler's criterion, p = 3 mod 4). *)
+Section NumberTheory.
+  Hypothesis prime_p : prime secp_p.
+  Hypothesis sqrt_complete : forall y, 0 <= y < secp_p -> snd (fsqrt (fsqr y)) = true.
+
+  Lemma sqr_eq_prime : forall a b, 0 <= a < secp_p -> 0 <= b < secp_p -> fsqr a = fsqr b -> a = b \/ a + b = secp_p.
+  Proof.
+    intros a b Ha Hb E. rewrite !fsqr_spec in E.
+    assert (Hp : 0 < secp_p) by lia.
+    assert (D : (secp_p | (a - b) * (a + b))).
+    { apply Z.mod_divide; [lia|]. replace ((a - b) * (a + b)) with (a * a - b * b) by ring.
+      rewrite Zminus_mod, E, Z.sub_diag. apply Z.mod_0_l. lia. }
+    apply prime_mult in D; [|assumption]. destruct D as [[k Hk]|[k Hk]].
+    - left. assert (k = 0) by nia. lia.
+    - assert (k = 0 \/ k = 1) as [->| ->] by nia; [left|right]; lia.
+  Qed.
+
+  Lemma ge_set_xo_with_complete : forall sqrtf,
+    (forall a, 0 <= fst (sqrtf a) < secp_p /\ snd (sqrtf a) = (fsqr (fst (sqrtf a)) =? a)) ->
+    (forall y, 0 <= y < secp_p -> snd (sqrtf (fsqr y)) = true) ->
+    forall x y, 0 <= y < secp_p -> on_curve x y = true -> ge_set_xo_with sqrtf x (Z.odd y) = Some (x, y).
+  Proof.
+    intros sqrtf Hs Hcomp x y Hy Hc. unfold on_curve in Hc. apply Z.eqb_eq in Hc.
+    destruct (ge_set_xo_with sqrtf x (Z.odd y)) as [P|] eqn:E.
+    - apply (ge_set_xo_with_sound sqrtf Hs) in E. destruct E as (y' & -> & Hy' & Hc' & Hpar).
+      unfold on_curve in Hc'. apply Z.eqb_eq in Hc'.
+      assert (Hodd : Z.odd secp_p = true) by (vm_compute; reflexivity).
+      destruct (sqr_eq_prime y' y Hy' Hy ltac:(congruence)) as [->|Hsum]; [reflexivity|].
+      exfalso. destruct Hpar as [->|Hpar].
+      + assert (y = secp_p) by lia. lia.
+      + assert (Ey : y' = secp_p - y) by lia. rewrite Ey, Z.odd_sub, Hodd in Hpar. destruct (Z.odd y); discriminate.
+    - exfalso. unfold ge_set_xo_with in E. rewrite <- Hc in E.
+      pose proof (Hcomp y Hy) as S. destruct (sqrtf (fsqr y)) as [r ok]. cbn [snd] in S. subst ok. discriminate.
+  Qed.
+
+  Theorem ge_set_xo_complete : forall x y, 0 <= y < secp_p -> on_curve x y = true ->
+    ge_set_xo x (Z.odd y) = Some (x, y).
+  Proof. exact (ge_set_xo_with_complete fsqrt fsqrt_spec sqrt_complete). Qed.
+
+  (* parse (serialize P) = P for every point of the curve, with the parity-byte rule *)
+  Theorem parse_serialize_compressed : forall x y, 0 <= x < secp_p -> 0 <= y < secp_p -> on_curve x y = true ->
+    ec_pubkey_serialize true (x, y) = (if Z.odd y then 3%N else 2%N) :: be_bytes_z 32 x /\
+    ec_pubkey_parse (ec_pubkey_serialize true (x, y)) = Some (x, y).
+  Proof.
+    intros x y Hx Hy Hc. split; [reflexivity|]. unfold ec_pubkey_serialize, ec_pubkey_parse.
+    cbn [length]. rewrite be_bytes_z_length. change (33 =? 33)%nat with true. cbn [andb].
+    assert (Htag : (((if Z.odd y then 3%N else 2%N) =? 2)%N || ((if Z.odd y then 3%N else 2%N) =? 3)%N) = true)
+      by (destruct (Z.odd y); reflexivity).
+    rewrite Htag. rewrite fe_limit_be_bytes by assumption.
+    replace ((if Z.odd y then 3%N else 2%N) =? 3)%N with (Z.odd y) by (destruct (Z.odd y); reflexivity).
+    apply ge_set_xo_complete; assumption.
+  Qed.
+
+  Theorem xonly_parse_serialize : forall x y, 0 <= x < secp_p -> 0 <= y < secp_p -> on_curve x y = true ->
+    xonly_parse (xonly_serialize (x, y)) = Some (fst (xonly_from_pubkey (x, y))).
+  Proof.
+    intros x y Hx Hy Hc. unfold xonly_parse, xonly_serialize. cbn [fst].
+    rewrite be_bytes_z_length. change (32 =? 32)%nat with true. cbv iota.
+    rewrite fe_limit_be_bytes by assumption.
+    pose proof (xonly_from_pubkey_spec x y Hy) as S.
+    destruct (xonly_from_pubkey (x, y)) as [[x' y'] parity]. destruct S as (-> & _ & Heven & Hy' & _ & Hc').
+    cbn [fst]. rewrite <- Heven. apply ge_set_xo_complete; [assumption|]. rewrite Hc'. assumption.
+  Qed.
+End NumberTheory.
+
+(* tweak-add parity reporting: secp256k1_xonly_pubkey_tweak_add_check accepts exactly the serialised x
+   coordinate and the y parity of internal + t*G *)
+Theorem xonly_tweak_add_check_spec : forall P t x y, ec_pubkey_tweak_add P t = Some (x, y) ->
+  forall x32 parity,
+  xonly_tweak_add_check x32 parity P t = true <-> (x32 = be_bytes_z 32 x /\ parity = Z.odd y).
+Proof.
+  intros P t x y H x32 parity. unfold xonly_tweak_add_check. rewrite H.
+  destruct (list_eq_dec N.eq_dec (be_bytes_z 32 x) x32) as [E|E]; cbn [andb].
+  - split.
+    + intros Hp. apply Bool.eqb_prop in Hp. auto.
+    + intros [_ ->]. apply Bool.eqb_reflx.
+  - split; [discriminate|]. intros [Hv _]. exfalso. apply E. auto.
+Qed.
+
+Corollary xonly_tweak_add_check_none : forall P t x32 parity, ec_pubkey_tweak_add P t = None ->
+  xonly_tweak_add_check x32 parity P t = false.
+Proof. intros P t x32 parity H. unfold xonly_tweak_add_check. rewrite H. reflexivity. Qed.
